@@ -52,7 +52,13 @@ void harness(void)
 #endif
 #ifdef WITH_UNIFORM
     IN_F64(in_min); IN_F64(in_max);
+#ifdef UGRID
+    /* bounds on a dyadic grid (multiples of 1/UGRID within +-URANGE): few significant bits in one multiplier operand */
+    ASSUME(in_min < in_max && in_min >= -(double)URANGE && in_max <= (double)URANGE);
+    ASSUME(in_min * UGRID == floor(in_min * UGRID) && in_max * UGRID == floor(in_max * UGRID));
+#else
     ASSUME(in_min < in_max && in_min >= -1.0e6 && in_max <= 1.0e6);
+#endif
     double u = cmb_random_uniform(in_min, in_max);
     ASSERT(u >= in_min && u <= in_max, "uniform variate lies within [min, max]");
 #endif
